@@ -1,6 +1,7 @@
 import XlModel.Conc
 import XlModel.Lemmas.Conc
 import XlModel.Lemmas.ConcLin
+import XlModel.Lemmas.ConcInst
 /-!
 # C15 — documented concurrency-safe functions are race-free and linearizable
 
@@ -413,6 +414,130 @@ theorem style_ids_denote_request :
     (callBlocks "Styles" 0 "NewStyle").length = 1 ∧
     (callBlocks "Styles" 0 "NewStyle").all (fun c =>
       c.2.any (fun a => a.isWrite) && c.2.any (fun a => !a.isWrite)) = true := by decide +kernel
+
+/-! ## lock instances: one worksheet mutex per worksheet -/
+
+/-- instance-indexed locks and locations: the worksheet mutex and the worksheet fields carry
+the index of the worksheet, everything else is workbook-wide -/
+abbrev LockI := String × Option Nat
+abbrev LocI := Loc × Option Nat
+
+def lockOn (k : Nat) (l : String) : LockI := (l, if l = "Ws" then some k else none)
+def locOn (k : Nat) (x : Loc) : LocI := (x, if x.1 = "Ws" then some k else none)
+
+def rankI (l : LockI) : Nat := rank l.1
+def guardI (x : LocI) : Option LockI := (guardOf x.1).map fun g => (g, if g = "Ws" then x.2 else none)
+def chkI (x : LocI) : Bool := chkLoc x.1
+
+/-- the trace of one call of `f` on worksheet number `k` (by `one_worksheet_per_call` every
+worksheet access of a call goes to the worksheet named by its `sheet` argument) -/
+def traceOn (c : String × Nat) : List (Action LockI LocI) :=
+  (Impl.trace c.1).map (mapAct (lockOn c.2) (locOn c.2))
+
+/-- a goroutine calling API functions on chosen worksheets -/
+def threadOnSheets (calls : List (String × Nat)) : List (Action LockI LocI) :=
+  (calls.map traceOn).flatten
+
+theorem lockOn_injective (k : Nat) : Function.Injective (lockOn k) := by
+  intro a b h
+  simp only [lockOn, Prod.mk.injEq] at h
+  exact h.1
+
+theorem guardOfClass_ws {c : String} (h : guardOfClass c = some "Ws") : c = "Ws" := by
+  unfold guardOfClass at h
+  split at h <;> simp_all
+
+theorem guardI_locOn (k : Nat) (x : Loc) : guardI (locOn k x) = (guardOf x).map (lockOn k) := by
+  obtain ⟨c, fld⟩ := x
+  simp only [guardI, locOn, guardOf, lockOn]
+  by_cases hc : c = "Ws"
+  · subst hc
+    rfl
+  · cases hg : guardOfClass c with
+    | none => rfl
+    | some g =>
+      have hgw : g ≠ "Ws" := by
+        intro e
+        subst e
+        exact hc (guardOfClass_ws hg)
+      simp [hc, hgw, lockOn]
+
+theorem traceOn_ordered {c : String × Nat} (hf : c.1 ∈ api) : okOrder rankI [] (traceOn c) = true :=
+  okOrder_map (lockOn c.2) (lockOn_injective c.2) (locOn c.2) rank rankI (fun _ => rfl) _ (trace_ordered hf)
+
+theorem traceOn_guarded {c : String × Nat} (hf : c.1 ∈ api) :
+    okGuard guardI chkI [] (traceOn c) = true := by
+  have := okGuard_map (lockOn c.2) (lockOn_injective c.2) (locOn c.2) guardOf guardI chkLoc chkI
+    (guardI_locOn c.2) (fun _ => rfl) (Impl.trace c.1) []
+  simp only [List.map_nil] at this
+  unfold traceOn
+  rw [this]
+  exact trace_guarded hf
+
+theorem threadOnSheets_ok {calls : List (String × Nat)} (h : ∀ c ∈ calls, c.1 ∈ api) :
+    okOrder rankI [] (threadOnSheets calls) = true ∧ okGuard guardI chkI [] (threadOnSheets calls) = true := by
+  have ho : ∀ p ∈ calls.map traceOn, okOrder rankI [] p = true := by
+    intro p hp
+    obtain ⟨c, hc, rfl⟩ := List.mem_map.mp hp
+    exact traceOn_ordered (h c hc)
+  have hg : ∀ p ∈ calls.map traceOn, okGuard guardI chkI [] p = true := by
+    intro p hp
+    obtain ⟨c, hc, rfl⟩ := List.mem_map.mp hp
+    exact traceOn_guarded (h c hc)
+  exact ⟨okOrder_flatten rankI _ ho, okGuard_flatten rankI guardI chkI _ ho hg⟩
+
+/-- **per_sheet_no_deadlock**: the *no deadlock* clause with one worksheet mutex PER
+WORKSHEET: any number of goroutines, each calling any documented functions on any worksheets
+(two worksheets = two different mutexes that do not exclude each other). -/
+theorem per_sheet_no_deadlock (threads : List (List (String × Nat)))
+    (h : ∀ th ∈ threads, ∀ c ∈ th, c.1 ∈ api) {s : Sys LockI LocI}
+    (r : Reach (initSys (threads.map threadOnSheets)) s) (hne : ¬ Finished s) : ∃ s', Step s s' := by
+  apply ordered_no_deadlock rankI _ _ r hne
+  intro p hp
+  obtain ⟨th, hth, rfl⟩ := List.mem_map.mp hp
+  exact (threadOnSheets_ok (h th hth)).1
+
+/-- **per_sheet_race_free**: the *no data race* clause with lock instances: no reachable
+state has a race on any covered location — the fields of worksheet `k` (guarded by THAT
+worksheet's mutex only) and the workbook-wide locations (style tables, shared strings and
+their index map, calculation chain, content types, media / drawing part lists, …), which
+calls working on DIFFERENT worksheets reach without excluding each other by a worksheet mutex:
+they are race free because the guard table protects them by workbook-wide mutexes. -/
+theorem per_sheet_race_free (threads : List (List (String × Nat)))
+    (h : ∀ th ∈ threads, ∀ c ∈ th, c.1 ∈ api) {s : Sys LockI LocI}
+    (r : Reach (initSys (threads.map threadOnSheets)) s) (y : LocI) (hy : chkI y = true) :
+    ¬ RaceOn s y := by
+  apply guarded_race_free guardI chkI _ _ r y hy
+  intro p hp
+  obtain ⟨th, hth, rfl⟩ := List.mem_map.mp hp
+  exact (threadOnSheets_ok (h th hth)).2
+
+/-- **per_sheet_linearizable**: `atomic_sections_linearizable` for the mutex of worksheet `k`
+(or any workbook-wide mutex `g`): the history of accesses to its footprint in any
+interleaving of calls on any worksheets is a concatenation of whole sections of that
+instance, thread by thread in program order. -/
+theorem per_sheet_linearizable (g : LockI) (threads : List (List (String × Nat)))
+    (h : ∀ th ∈ threads, ∀ c ∈ th, c.1 ∈ api) {τ : List (Event LockI LocI)} {s' : Sys LockI LocI}
+    (ex : Exec (initSys (threads.map threadOnSheets)) τ s') :
+    (blocks g (footprint guardI chkI g) none τ).flatMap Block.events = projF (footprint guardI chkI g) τ ∧
+    (∀ i p, (threads.map threadOnSheets)[i]? = some p → ∃ t' done, s'[i]? = some t' ∧ done ++ t'.rest = p ∧
+      (blocks g (footprint guardI chkI g) none τ).filter (fun c => c.1 == i) =
+        blocks g (footprint guardI chkI g) none (tag i done) ∧
+      only i (projF (footprint guardI chkI g) τ) = projF (footprint guardI chkI g) (tag i done)) := by
+  apply atomic_sections_linearizable guardI chkI g _ _ ex
+  intro p hp
+  obtain ⟨th, hth, rfl⟩ := List.mem_map.mp hp
+  exact (threadOnSheets_ok (h th hth)).2
+
+/-- non-vacuity of the instance model: the grids of two worksheets are different locations
+with different guards, and a workbook-wide part list is one location guarded by `File.mu` -/
+theorem instances_are_distinct :
+    locOn 1 ("Ws", "SheetData") ≠ locOn 2 ("Ws", "SheetData") ∧
+    guardI (locOn 1 ("Ws", "SheetData")) = some ("Ws", some 1) ∧
+    guardI (locOn 2 ("Ws", "SheetData")) = some ("Ws", some 2) ∧
+    locOn 1 ("File", "mediaParts") = locOn 2 ("File", "mediaParts") ∧
+    guardI (locOn 1 ("File", "mediaParts")) = some ("File", none) ∧
+    chkI (locOn 1 ("Ws", "SheetData")) = true ∧ chkI (locOn 2 ("File", "mediaParts")) = true := by decide
 
 /-! ### critical sections of the setters (linearization points) -/
 
